@@ -16,6 +16,7 @@ using namespace sim;
 
 namespace sim {
 Plan gen_perturb_plan(uint64_t seed);                 // perturb.cpp
+Plan gen_ansic_plan(uint64_t seed);                   // perturb.cpp
 int perturb_main(int argc, char **argv);              // perturb.cpp
 int oomenum_main(int argc, char **argv);              // oomenum.cpp
 }
@@ -76,6 +77,7 @@ static int g_focus = 0;
 static Plan make_plan(const std::string &mode, uint64_t seed) {
   if (mode == "oom") return gen_hist_plan(seed, true, g_focus);
   if (mode == "perturb") return gen_perturb_plan(seed);
+  if (mode == "ansic") return gen_ansic_plan(seed);
   return gen_hist_plan(seed, false, g_focus);
 }
 
@@ -89,6 +91,7 @@ static int worker(const std::string &mode, uint64_t from, uint64_t to, const std
     fflush(stdout);
     Plan p = make_plan(mode, seed);
     ExecOptions o;
+    o.use_twin = (mode != "perturb" && mode != "ansic");
     RunResult r = execute_plan(p, o);
     runs++;
     total.merge(r.stats);
@@ -127,8 +130,9 @@ static int replay(const std::string &path, bool keep_log, bool announce) {
   Plan p;
   std::string err;
   if (!plan_from_text(read_file(path), &p, &err)) { fprintf(stderr, "bad plan: %s\n", err.c_str()); return 2; }
-  oracle_start();
+  if (p.mode != "perturb" && p.mode != "ansic") oracle_start();
   ExecOptions o;
+  o.use_twin = (p.mode != "perturb" && p.mode != "ansic");
   o.keep_log = keep_log;
   o.announce_ops = announce;
   o.announce_fd = 2;
